@@ -7,13 +7,14 @@ from harness.common import CONFIGS, F, enc, fl
 
 ID = "C03"
 PROPS_FILE = "Props/C03.v"
-COQ_IMPORTS = "From SA Require Import Model.Harness."
+COQ_IMPORTS = "From SA Require Import Model.Harness.\nFrom SA Require Model.FloatThreshold.\nFrom Coq Require Import Floats.PrimFloat."
 GEN_AVAILABLE = set()
 RULE = ("Scores x 6 metrics x 4 configurations x 3 methods with targets {<0, 0, 1, >1}; relevant class sizes 1..10, "
         "easy counts 0 and > 0 (stream E: counts making the easy/hard ratios exact; stream F: arbitrary counts); "
         "the metric at the returned threshold must EQUAL its lowest / highest achievable value; non-trivial: "
         "target at or beyond an end of the scale and relevant class non-empty (single-score cases counted separately)")
-TRUSTED = ["np.nextafter = succ64/pred64 (Base/Carrier.v)", "exact-rational model of the rescaling; the float rescaling "
+TRUSTED = ["Model/FloatThreshold.v (binary64 model of threshold setting over Coq primitive floats, compared bit for bit on every case): kernel float primitives + vm_compute on hardware doubles; used by the correspondence only, no theorem depends on it",
+           "np.nextafter = succ64/pred64 (Base/Carrier.v)", "exact-rational model of the rescaling; the float rescaling "
            "(r - easy)/hard is covered by the oracle on real floats and the bounded PrimFloat statement in Props/C03.v"]
 ASSUMPTIONS = ["relevant class non-empty", "finite scores of moderate magnitude"]
 
@@ -79,8 +80,9 @@ def coq_term(case, res):
     if "ok" not in res:
         return "false"
     r = res["ok"]
-    # sentinels are exact doubles, so thresholds are compared exactly on every stream
-    return tc.thr_agree_term(case, r["thr"], 0, False)
+    # sentinels are exact doubles, so thresholds are compared exactly on every stream; and bit for bit with the binary64 model
+    ft = tc.float_agree_term(case, r["thr"])
+    return tc.thr_agree_term(case, r["thr"], 0, False) + (f" && {ft}" if ft else "")
 
 
 def oracle(case, res):
